@@ -135,6 +135,7 @@ func (s *Spec) EmitWire(r *rand.Rand, extraArg bool) map[string]string {
 		delete(files, f)
 	}
 	var inj, sets strings.Builder
+	var setDecls [][2]string // name, wire.NewSet(...) expression
 	setSeq := 0
 	for ii, in := range s.Injectors {
 		ref := s.Interpret(in)
@@ -145,7 +146,7 @@ func (s *Spec) EmitWire(r *rand.Rand, extraArg bool) map[string]string {
 		var elems, topBinds []string
 		for _, u := range units {
 			parts := strings.Split(u, "\x00")
-			if len(parts) > 1 && r.Intn(5) == 0 {
+			if len(parts) > 1 && r.Intn(5) == 0 && !s.WireBindsStay {
 				elems = append(elems, parts[0])
 				topBinds = append(topBinds, parts[1:]...)
 				continue
@@ -177,10 +178,10 @@ func (s *Spec) EmitWire(r *rand.Rand, extraArg bool) map[string]string {
 					// nested: first element in its own inner set variable
 					setSeq++
 					inner := fmt.Sprintf("%sSet%d", in.Name, setSeq)
-					fmt.Fprintf(&sets, "var %s = wire.NewSet(\n\t%s,\n)\n\n", inner, chunk[0])
+					setDecls = append(setDecls, [2]string{inner, "wire.NewSet(\n\t" + chunk[0] + ",\n)"})
 					body = inner + ",\n\t" + strings.Join(chunk[1:], ",\n\t") + ","
 				}
-				fmt.Fprintf(&sets, "var %s = wire.NewSet(\n\t%s\n)\n\n", name, body)
+				setDecls = append(setDecls, [2]string{name, "wire.NewSet(\n\t" + body + "\n)"})
 				top = append(top, name)
 			case k < 4:
 				top = append(top, "wire.NewSet(\n\t\t\t"+strings.Join(chunk, ",\n\t\t\t")+",\n\t\t)")
@@ -210,6 +211,28 @@ func (s *Spec) EmitWire(r *rand.Rand, extraArg bool) map[string]string {
 			continue
 		}
 		fmt.Fprintf(&inj, "func %s(%s) %s {\n\twire.Build(\n\t\t%s,\n\t)\n\t%s\n}\n\n", in.Name, strings.Join(ps, ", "), res, strings.Join(top, ",\n\t\t"), ret)
+	}
+	// the set variables in one of three spellings (as for kessoku.Set): one
+	// var each, one var block, multi-name specifications
+	switch form := s.setDeclForm(); {
+	case form == 1 && len(setDecls) > 0:
+		sets.WriteString("var (\n")
+		for _, d := range setDecls {
+			fmt.Fprintf(&sets, "\t%s = %s\n", d[0], d[1])
+		}
+		sets.WriteString(")\n\n")
+	case form == 2 && len(setDecls) > 1:
+		for i := 0; i < len(setDecls); i += 2 {
+			if i+1 == len(setDecls) {
+				fmt.Fprintf(&sets, "var %s = %s\n\n", setDecls[i][0], setDecls[i][1])
+				break
+			}
+			fmt.Fprintf(&sets, "var %s, %s = %s, %s\n\n", setDecls[i][0], setDecls[i+1][0], setDecls[i][1], setDecls[i+1][1])
+		}
+	default:
+		for _, d := range setDecls {
+			fmt.Fprintf(&sets, "var %s = %s\n\n", d[0], d[1])
+		}
 	}
 	hdr := func(body string, tag bool) string {
 		h := s.header(s.mainPkgName(), body+"\nvar _ = wire.NewSet\n", true)
